@@ -539,6 +539,10 @@ def look_class(env, key, res):
     return res["k"]
 
 
+def showenv(env):
+    return [show(e) for e in env[:8]] + (["... %d entries in all, last %s" % (len(env), show(env[-1]))] if len(env) > 8 else [])
+
+
 def show(bs):
     return repr(bytes(bs))[1:] if len(bs) < 40 else "<%d bytes>" % len(bs)
 
@@ -548,7 +552,7 @@ def report(chk, rec, verdict, replay):
         if clause == "status":
             chk.violate({"clause": "status", "mode": rec["mode"], "kind": rec["status"].split(":")[0]},
                         "[%s/%s] probe did not finish: %s (argv=%s env=%s)" % (
-                            rec["mode"], rec["build"], rec["status"], [show(a) for a in rec["argv"]], [show(e) for e in rec["env"]]),
+                            rec["mode"], rec["build"], rec["status"], [show(a) for a in rec["argv"]], showenv(rec["env"])),
                         replay)
         elif clause == "lookup":
             for ki in verdict["keys"]:
@@ -560,7 +564,7 @@ def report(chk, rec, verdict, replay):
                     cls = look_class(rec["kenv"], l["key"], l["var"])   # var_unix looks right: describe var's answer
                 chk.violate({"clause": "lookup", "class": cls},
                             "[%s/%s] env=%s key=%s: var -> %s, var_unix -> %s" % (
-                                rec["mode"], rec["build"], [show(e) for e in rec["kenv"]], show(l["key"]),
+                                rec["mode"], rec["build"], showenv(rec["kenv"]), show(l["key"]),
                                 fmt_res(l["var"]), fmt_res(l["varu"])),
                             dict(replay, key=l["key"]))
         elif clause == "args":
@@ -1130,6 +1134,10 @@ def run(tier):
                                    else (1000 + i % 7, 2000 + i % 5))                              # AT_EUID, AT_GID, AT_EGID pairwise distinct
                            if (i % 3 == 0 and use_ids) else None}
                           for i, v in enumerate(envs)]
+    # a block of 5 001 entries (V0..V4999, LAST): the scan of var / var_unix has no bound on the number of entries
+    big_env = [list(b"V%d=%d" % (i, i)) for i in range(5000)] + [list(b"LAST=z")]
+    extra_cases.append({"argv": [[97]], "env": big_env, "always": True,
+                        "keys": [list(k) for k in (b"V0", b"V4000", b"V4095", b"V4096", b"V4097", b"V4999", b"LAST", b"W", b"V5000")]})
     cases += [dict(c, ids=None) for c in extra_cases]
     # the Iterator surface of args_os() / args(): every generated script on a 5-argument vector, on a vector with a
     # non-UTF-8 argument in the middle, and on a 1-argument vector
@@ -1145,7 +1153,7 @@ def run(tier):
     variant_modes = {m for m, _ in LINK_VARIANTS}
     # the link variants run the hand-written cases, the leads and every fourth (quick: eighth) generated case
     step = 8 if quick else 4
-    reduced = [c for i, c in enumerate(cases) if i < len(lead_cases) + len(EXTRA_ENVS) or i % step == 0 or "scripts" in c or len(c["argv"]) > 10]
+    reduced = [c for i, c in enumerate(cases) if i < len(lead_cases) + len(EXTRA_ENVS) or i % step == 0 or "scripts" in c or len(c["argv"]) > 10 or c.get("always")]
 
     def work(item):
         (mode, build), binary = item
